@@ -129,7 +129,7 @@ int main(int argc, char** argv) {
             std::vector<std::string> fens;
             for (int i = 0; i < n && !c.empty(); i++) {
                 std::string start = gen::seedFens()[0];
-                gen::Game g = gen::game(c, 24, &start);
+                gen::Game g = gen::game(c, (int)a.num("max-plies", 24), &start);
                 ref::Pos p = g.pos.back(); ref::normalizeEp(p);
                 fens.push_back(ref::toFEN(p));
             }
